@@ -1257,6 +1257,64 @@ def oracle_suffix_exhaustive(universe, stats):
     return v
 
 
+def oracle_ed_filters_exhaustive(maxlen_ab, maxlen_abc, stats, tables=True):
+    """C04 under EDIT_DISTANCE, EXHAUSTIVELY over all pairs of strings over {a,b} up to `maxlen_ab` and {a,b,c} up to
+    `maxlen_abc` characters (short strings over tiny alphabets are where q-grams repeat): for q in {1,2,3}, padding on/off,
+    threshold in {0,1,2,3} and each of Size/Prefix/Position/SuffixFilter, `filter_pair` must keep every pair within the
+    threshold that shares a q-gram, and `filter_tables` on the table of all strings must list it."""
+    import itertools
+    import pandas as pd
+    import py_stringmatching as sm
+    lev = sm.Levenshtein().get_raw_score
+    v = []
+    cnt = 0
+    for alpha, maxlen in (('ab', maxlen_ab), ('abc', maxlen_abc)):
+        strs = [''.join(t) for n in range(0, maxlen + 1) for t in itertools.product(alpha, repeat=n)]
+        dist = {}
+        for q in (1, 2, 3):
+            for pad in (False, True):
+                tok = sm.QgramTokenizer(qval=q, padding=pad, return_set=False)
+                toks = {x: tok.tokenize(x) for x in strs}
+                tsets = {x: set(toks[x]) for x in strs}
+                for tau in (0, 1, 2, 3):
+                    qual = []
+                    for x in strs:
+                        for y in strs:
+                            if abs(len(x) - len(y)) > tau or not (tsets[x] & tsets[y]):
+                                continue
+                            d = dist.get((x, y))
+                            if d is None:
+                                d = dist[(x, y)] = lev(x, y)
+                            if d <= tau:
+                                qual.append((x, y))
+                    for kind, cls in S.FILTERS.items():
+                        if kind == 'overlap':
+                            continue
+                        f = cls(tok, 'EDIT_DISTANCE', tau)
+                        case0 = {'entry': 'ed_filters_exhaustive', 'kind': kind, 'qval': q, 'padding': pad, 'threshold': tau}
+                        for (x, y) in qual:
+                            cnt += 1
+                            if f.filter_pair(x, y):
+                                v.append(viol('C04', '%sFilter.filter_pair drops a qualifying pair (EDIT_DISTANCE, t=%d, q=%d, padding=%s: %r / %r)'
+                                              % (kind, tau, q, pad, x, y), dict(case0, strings=[x, y])))
+                                if len(v) > 12:
+                                    return v
+                        if tables and len(strs) <= 70:
+                            T = pd.DataFrame({'id': list(range(len(strs))), 'attr': pd.Series(strs, dtype=object)})
+                            out = f.filter_tables(T, T, 'id', 'id', 'attr', 'attr', n_jobs=1, show_progress=False)
+                            kept = set(zip(out['l_id'], out['r_id']))
+                            pos = {x: i for i, x in enumerate(strs)}
+                            for (x, y) in qual:
+                                cnt += 1
+                                if (pos[x], pos[y]) not in kept:
+                                    v.append(viol('C04', '%sFilter.filter_tables omits a qualifying pair (EDIT_DISTANCE, t=%d, q=%d, padding=%s: %r / %r)'
+                                                  % (kind, tau, q, pad, x, y), dict(case0, strings=[x, y], table='all strings over %r up to length %d' % (alpha, maxlen))))
+                                    if len(v) > 12:
+                                        return v
+    stats.hit('oracle.ed_filters_exhaustive.checks', cnt)
+    return v
+
+
 def oracle_split_exhaustive(nmax, kmax, stats):
     """C10: the REAL split_table yields a contiguous partition for every (table length <= nmax, 1 <= k <= min(len, kmax)),
     exhaustively; and get_num_processes_to_launch follows its documented rule"""
